@@ -20,12 +20,18 @@ def gtf_errors(path, chroms, label, ann_genes=None, ann_transcripts=None):
     genes = {}
     trs = {}
     order = []
+    first_model = {}          # gene id -> the transcript whose record directly follows the gene record
+    last_gene = None
     for r in recs:
         if r["type"] == "gene":
             gid = r["attrs"].get("gene_id")
             genes.setdefault(gid, []).append(r)
+            last_gene = gid
         elif r["type"] == "transcript":
             tid = r["attrs"].get("transcript_id")
+            if last_gene is not None and r["attrs"].get("gene_id") == last_gene:
+                first_model.setdefault(last_gene, tid)
+            last_gene = None
             trs.setdefault(tid, {"records": [], "exons": [], "gene": r["attrs"].get("gene_id"), "chr": r["chr"], "strand": r["strand"]})
             trs[tid]["records"].append(r)
         elif r["type"] == "exon":
@@ -75,6 +81,10 @@ def gtf_errors(path, chroms, label, ann_genes=None, ann_transcripts=None):
                 else:
                     novel_in_annotated = str(tid).startswith("transcript") and not str(t["gene"]).startswith("novel_gene") and \
                         label == "transcript_models"
+                # (the gene record is written together with the first model of the gene: a record that does not even contain THAT model is
+                # another matter than a model of a later read region the record could not know)
+                if novel_in_annotated and first_model.get(t["gene"]) == tid:
+                    novel_in_annotated = False
                 errs.append(("gene-span" + (":novel-transcript-beyond-annotated-gene" if novel_in_annotated else ""),
                              "%s gene %s %d-%d does not contain its transcript %s %d-%d" %
                              (label, t["gene"], g["start"], g["end"], tid, tr["start"], tr["end"])))
